@@ -18,15 +18,15 @@ open FieldMask
 
 /-- **queries_match_paths.**  Let the path strings have the meanings `ts` for the descriptor
 (`meaning` reads the strings with the tokenizer and the descriptor only — never a mask), let the
-denoted path set `expandAll ts` be free of '*' conflicts, and — in black-list mode — let no path
-end in '*'.  Then NewFieldMask succeeds, and every non-empty sequence of `Field/Int/Str` calls that
+denoted path set `expandAll ts` be free of '*' conflicts, and — in black-list mode, while the isAll branch of
+Field/Int/Str still answers `self.hasChild()` (`cfg.blackStar`) — let no path end in '*'.  Then NewFieldMask succeeds, and every non-empty sequence of `Field/Int/Str` calls that
 does not panic answers exactly `Sel black (expandAll ts)`.  No bound on the number or length of
 paths, the schema, or the query. -/
 theorem queries_match_paths (cfg : Sites) (sch : Schema) (huniq : sch.uniqueIds = true)
     (desc : Ty) (black : Bool) (paths : List Bytes) (ts : List ATree)
     (hmean : meaning cfg sch desc paths = .ok ts)
     (hnc : NoStarConflict (expandAll ts) = true)
-    (hnts : black = true → NoTerminalStar (expandAll ts) = true) :
+    (hnts : black = true → cfg.blackStar = true → NoTerminalStar (expandAll ts) = true) :
     ∃ m, newFieldMask cfg sch desc black paths = .ok m ∧
       ∀ (q : List QStep) (b : Bool), q ≠ [] → walk cfg (.some m) q = .ok b → b = Sel black (expandAll ts) q := by
   unfold meaning at hmean
@@ -90,12 +90,12 @@ theorem order_independent (cfg : Sites) (sch : Schema) (huniq : sch.uniqueIds = 
     (hmean : meaning cfg sch desc paths = .ok ts) (hmean' : meaning cfg sch desc paths' = .ok ts')
     (hsame : ∀ p, p ∈ expandAll ts ↔ p ∈ expandAll ts')
     (hnc : NoStarConflict (expandAll ts) = true) (hnc' : NoStarConflict (expandAll ts') = true)
-    (hnts : black = true → NoTerminalStar (expandAll ts) = true ∧ NoTerminalStar (expandAll ts') = true) :
+    (hnts : black = true → cfg.blackStar = true → NoTerminalStar (expandAll ts) = true ∧ NoTerminalStar (expandAll ts') = true) :
     ∃ m m', newFieldMask cfg sch desc black paths = .ok m ∧ newFieldMask cfg sch desc black paths' = .ok m' ∧
       ∀ (q : List QStep) (b b' : Bool), q ≠ [] →
         walk cfg (.some m) q = .ok b → walk cfg (.some m') q = .ok b' → b = b' := by
-  obtain ⟨m, hm, h1⟩ := queries_match_paths cfg sch huniq desc black paths ts hmean hnc (fun h => (hnts h).1)
-  obtain ⟨m', hm', h2⟩ := queries_match_paths cfg sch huniq desc black paths' ts' hmean' hnc' (fun h => (hnts h).2)
+  obtain ⟨m, hm, h1⟩ := queries_match_paths cfg sch huniq desc black paths ts hmean hnc (fun h h' => (hnts h h').1)
+  obtain ⟨m', hm', h2⟩ := queries_match_paths cfg sch huniq desc black paths' ts' hmean' hnc' (fun h h' => (hnts h h').2)
   refine ⟨m, m', hm, hm', ?_⟩
   intro q b b' hq hw hw'
   rw [h1 q b hq hw, h2 q b' hq hw']
@@ -174,7 +174,7 @@ theorem json_roundtrip (cfg : Sites) (sch : Schema) (huniq : sch.uniqueIds = tru
     (desc : Ty) (black : Bool) (paths : List Bytes) (ts : List ATree)
     (hmean : meaning cfg sch desc paths = .ok ts)
     (hnc : NoStarConflict (expandAll ts) = true)
-    (hnts : black = true → NoTerminalStar (expandAll ts) = true)
+    (hnts : black = true → cfg.blackStar = true → NoTerminalStar (expandAll ts) = true)
     (hne : expandAll ts ≠ [])
     (hsafe : JsonSafe cfg (expandAll ts) = true) :
     ∃ m j m', newFieldMask cfg sch desc black paths = .ok m ∧ marshal m = .ok j ∧
